@@ -290,3 +290,140 @@ theorem C12_moves_any (w : World) (c : MoveCall) (hI : w.WInv = true) (ha : c.ag
   | false => exact C12_inactive_mover w c hI ha hact
 
 end Abmarl
+
+namespace Abmarl
+open World
+
+/-! ### What exactly happens to a mover that is not active
+
+`World.wouldMove w a d`: the destination of the offset `d` from the STORED position of `a` is another cell,
+inside the grid, and `Grid.query` accepts `a` there.  `World.staysPut w a d`: the destination is the stored
+position itself and lies inside the grid (the actors answer `True` without touching the grid). -/
+
+/-- `MoveActor`: raises `KeyError` exactly when the move would have been carried out; otherwise answers with
+the world it was given (`True` only for the trivial move onto the stored position) -/
+theorem inactive_move_outcome (w : World) (a : Aid) (d : Pos) (hI : w.WInv = true)
+    (hin : (w.stOf a).active = false) (hmv : (w.cfgOf a).moving = true) :
+    runMoveCall w (.move a d) =
+      if w.wouldMove a d then .error .keyError else .ok ⟨some (w.staysPut a d), w, 0⟩ := by
+  simp only [runMoveCall, moveAct_inactive hI hin, hmv, if_true]
+  by_cases h : w.wouldMove a d = true <;> simp [h, Except.map]
+
+/-- `CrossMoveActor`, an action of the table -/
+theorem inactive_cross_outcome (w : World) (a : Aid) (x : Int) (d : Pos) (hI : w.WInv = true)
+    (hin : (w.stOf a).active = false) (hmv : (w.cfgOf a).moving = true) (hd : crossTable x = some d) :
+    runMoveCall w (.cross a x) =
+      if w.wouldMove a d then .error .keyError else .ok ⟨some (w.staysPut a d), w, x⟩ := by
+  simp only [runMoveCall, crossAct_inactive hI hin, hmv, if_true, hd]
+  by_cases h : w.wouldMove a d = true <;> simp [h, Except.map]
+
+/-- `CrossMoveActor`, an action outside the table: the assertion of `grid_action` -/
+theorem inactive_cross_outside (w : World) (a : Aid) (x : Int) (hI : w.WInv = true)
+    (hin : (w.stOf a).active = false) (hmv : (w.cfgOf a).moving = true) (hd : crossTable x = none) :
+    runMoveCall w (.cross a x) = .error .assertion := by
+  simp [runMoveCall, crossAct_inactive hI hin, hmv, hd, Except.map]
+
+/-- `DriftMoveActor`, stored orientation inside the table (offset `d'`): asked for a new direction `x ≠ 0` the
+FIRST attempt (offset of `x`) decides whenever it raises; when it is refused the SECOND attempt (along the
+stored orientation) decides; for `x = 0` only the second attempt is made.  A call that returns leaves the
+stored orientation in the action dictionary. -/
+theorem inactive_drift_outcome (w : World) (a : Aid) (x : Int) (d' : Pos) (hI : w.WInv = true)
+    (hin : (w.stOf a).active = false)
+    (hsup : ((w.cfgOf a).moving && (w.cfgOf a).hasOrient) = true)
+    (ho : crossTable ((w.stOf a).orient : Int) = some d') :
+    runMoveCall w (.drift a x) =
+      if x ≠ 0 then
+        match crossTable x with
+        | none => .error .assertion
+        | some d =>
+          if w.wouldMove a d then .error .keyError
+          else if w.wouldMove a d' then .error .keyError
+          else .ok ⟨some (w.staysPut a d'), w, ((w.stOf a).orient : Int)⟩
+      else if w.wouldMove a d' then .error .keyError
+      else .ok ⟨some (w.staysPut a d'), w, ((w.stOf a).orient : Int)⟩ := by
+  have hg : (w.ghostDrift a).map (fun r => (⟨r.1, r.2.1, r.2.2⟩ : MoveOut)) =
+      if w.wouldMove a d' then .error .keyError
+      else .ok ⟨some (w.staysPut a d'), w, ((w.stOf a).orient : Int)⟩ := by
+    simp only [ghostDrift, ho]
+    by_cases h : w.wouldMove a d' = true <;> simp [h, Except.map]
+  simp only [runMoveCall, driftAct_inactive hI hin, hsup, if_true]
+  by_cases hx : x = 0
+  · simp only [hx, ne_eq, not_true_eq_false, if_false]; exact hg
+  · simp only [ne_eq, hx, not_false_eq_true, if_true]
+    cases hd : crossTable x with
+    | none => rfl
+    | some d =>
+      by_cases h : w.wouldMove a d = true
+      · simp [h, Except.map]
+      · simp only [h, Bool.false_eq_true, if_false]; exact hg
+
+/-- the agent is one the actor supports -/
+def MoveCall.supported (w : World) : MoveCall → Bool
+  | .move a _ => (w.cfgOf a).moving
+  | .cross a _ => (w.cfgOf a).moving
+  | .drift a _ => (w.cfgOf a).moving && (w.cfgOf a).hasOrient
+
+/-- the offsets a call tries, in the order it tries them -/
+def MoveCall.attempts (w : World) : MoveCall → List Pos
+  | .move _ d => [d]
+  | .cross _ x => (crossTable x).toList
+  | .drift a x => (if x = 0 then [] else (crossTable x).toList) ++
+      (crossTable ((w.stOf a).orient : Int)).toList
+
+/-- the value in `action_dict['move']` after a call that returns -/
+def MoveCall.leftInactive (w : World) : MoveCall → Int
+  | .move _ _ => 0
+  | .cross _ x => x
+  | .drift a _ => ((w.stOf a).orient : Int)
+
+/-- under the invariant the stored orientation of an agent with an orientation is a real direction -/
+theorem orient_in_table {w : World} {a : Aid} (hI : w.WInv = true) (ha : a < w.n)
+    (hor : (w.cfgOf a).hasOrient = true) :
+    ∃ d, crossTable ((w.stOf a).orient : Int) = some d ∧ d ≠ (0, 0) := by
+  have hA := ((WInv_parts_iff w).1 hI).2.2.1 a ha
+  have h := ((wAgent_reading w a).1 hA).2.2.2.2.2.2 hor
+  have : (w.stOf a).orient = 1 ∨ (w.stOf a).orient = 2 ∨ (w.stOf a).orient = 3 ∨
+      (w.stOf a).orient = 4 := by omega
+  rcases this with h | h | h | h <;> rw [h] <;> exact ⟨_, rfl, by decide⟩
+
+/-- **the outcome of a call for a supported agent that is not active, action in the action space**: the call
+raises `KeyError` exactly when one of its attempts would have been carried out (the first such attempt raises:
+`inactive_drift_outcome`); otherwise it returns, with the world it was given, and with `False` unless its
+last attempt is the trivial move onto the stored position (possible for `MoveActor` with offset `(0,0)` and
+`CrossMoveActor` with action 0 only). -/
+theorem inactive_mover_outcome (w : World) (c : MoveCall) (hI : w.WInv = true) (ha : c.agent < w.n)
+    (hin : (w.stOf c.agent).active = false) (hsp : c.inSpace w = true) (hsup : c.supported w = true) :
+    runMoveCall w c =
+      if (c.attempts w).any (w.wouldMove c.agent) then .error .keyError
+      else .ok ⟨some ((c.attempts w).getLast?.elim false (w.staysPut c.agent)), w, c.leftInactive w⟩ := by
+  cases c with
+  | move a d =>
+    simp only [MoveCall.agent, MoveCall.supported] at ha hin hsup
+    rw [inactive_move_outcome w a d hI hin hsup]
+    simp [MoveCall.attempts, MoveCall.agent, MoveCall.leftInactive]
+  | cross a x =>
+    simp only [MoveCall.agent, MoveCall.supported] at ha hin hsup
+    simp only [MoveCall.inSpace, Bool.and_eq_true, decide_eq_true_eq] at hsp
+    obtain ⟨d, hd⟩ : ∃ d, crossTable x = some d := by
+      have : x = 0 ∨ x = 1 ∨ x = 2 ∨ x = 3 ∨ x = 4 := by omega
+      rcases this with h | h | h | h | h <;> subst h <;> exact ⟨_, rfl⟩
+    rw [inactive_cross_outcome w a x d hI hin hsup hd]
+    simp [MoveCall.attempts, MoveCall.agent, MoveCall.leftInactive, hd]
+  | drift a x =>
+    simp only [MoveCall.agent, MoveCall.supported] at ha hin hsup
+    simp only [MoveCall.inSpace, Bool.and_eq_true, decide_eq_true_eq] at hsp
+    have hor : (w.cfgOf a).hasOrient = true := by
+      simp only [Bool.and_eq_true] at hsup; exact hsup.2
+    obtain ⟨d', hd', hne'⟩ := orient_in_table hI ha hor
+    obtain ⟨d, hd⟩ : ∃ d, crossTable x = some d := by
+      have : x = 0 ∨ x = 1 ∨ x = 2 ∨ x = 3 ∨ x = 4 := by omega
+      rcases this with h | h | h | h | h <;> subst h <;> exact ⟨_, rfl⟩
+    rw [inactive_drift_outcome w a x d' hI hin hsup hd']
+    have hs : w.staysPut a d' = false := staysPut_of_ne hne'
+    by_cases hx : x = 0
+    · subst hx
+      simp [MoveCall.attempts, MoveCall.agent, MoveCall.leftInactive, hd', hs]
+    · by_cases h1 : w.wouldMove a d = true <;> by_cases h2 : w.wouldMove a d' = true <;>
+        simp [MoveCall.attempts, MoveCall.agent, MoveCall.leftInactive, hd', hd, hs, hx, h1, h2]
+
+end Abmarl
